@@ -65,6 +65,7 @@ func c11Catalogue() []c11Attack {
 		{ID: "params/paillier-2047-bits", Proto: kg(), B: 0, Round: 2, Kind: "input", Guard: "size rule"},
 		// no-small-factor proof
 		{ID: "fac/256-bit-factor", Proto: kg(), B: 1, Round: 3, Kind: "input", Guard: "z1,z2 range of the factorisation proof"},
+		{ID: "fac/256-bit-factor-second", Proto: kg(), B: 0, Round: 3, Kind: "input", Guard: "z1,z2 range of the factorisation proof (small factor as second witness)"},
 		// Paillier key proof guards (mod/fac proofs switched off on both sides so that only this proof can see it)
 		{ID: "paillier-key/divisible-by-7", Proto: kgNoProofs(), B: 0, Round: 4, Kind: "input", Guard: "small-prime trial division"},
 		// (no valid proof exists for such a modulus and the library's prover panics on it: announced
@@ -265,11 +266,14 @@ func driveC11(rc *RunCtx) {
 					Q = primeWith(r, 1023, 3)
 				}
 				pp.PaillierSK = mkPaillierSK(P, Q)
-			case "fac/256-bit-factor":
+			case "fac/256-bit-factor", "fac/256-bit-factor-second":
 				P := primeWith(r, 256, 3)
 				Q := primeWith(r, 1792, 3)
 				for new(big.Int).Mul(P, Q).BitLen() != 2048 {
 					Q = primeWith(r, 1792, 3)
+				}
+				if id == "fac/256-bit-factor-second" {
+					P, Q = Q, P
 				}
 				pp.PaillierSK = mkPaillierSK(P, Q)
 			case "paillier-key/divisible-by-7":
